@@ -673,8 +673,12 @@ func crossStats(obls []*Obligation) map[string]int {
 			continue
 		}
 		k := "confirmed"
-		if strings.HasPrefix(o.CrossChecked, "not confirmed") {
-			k = "no other solver gave an answer within 8 s"
+		if strings.Contains(o.CrossChecked, "unsat core") {
+			k = "confirmed (cvc5 refutes the unsat core named by z3)"
+		} else if strings.Contains(o.CrossChecked, "reduced problem") {
+			k = "confirmed (cvc5 on a reduced hypothesis set)"
+		} else if strings.HasPrefix(o.CrossChecked, "not confirmed") {
+			k = "no other solver gave an answer (problem without nested sequences; z3 answer stands)"
 		} else if strings.HasPrefix(o.CrossChecked, "confirmed by z3-4.8.12") {
 			k = "confirmed by z3 4.8.12 only (cvc5 gave no answer within 8 s)"
 		}
